@@ -2,6 +2,7 @@ package main
 
 import (
 	"bufio"
+	"encoding/json"
 	"fmt"
 	"os"
 	"path/filepath"
@@ -213,4 +214,84 @@ func patchMeta(patch, name string) (prop, expect string) {
 		}
 	}
 	return prop, expect
+}
+
+// witnesses replays every known-finding witness twice: on the current tree (the defect is
+// repaired: no violation expected) and on a scratch copy with the repair reverted by the
+// mutant named in known_findings.json (the recorded violation class must come back).  It shows
+// that replay files stay meaningful: replaying one reproduces the violation exactly as long as
+// the defect is present, and only then.
+func witnesses() int {
+	defer cleanup()
+	var err error
+	scratch, err = os.MkdirTemp("", "verif-wit-")
+	if err != nil {
+		return 2
+	}
+	rc := 0
+	b, err := os.ReadFile(filepath.Join(verifDir, "known_findings.json"))
+	if err != nil {
+		return 2
+	}
+	var doc struct {
+		Findings []map[string]any `json:"findings"`
+	}
+	if json.Unmarshal(b, &doc) != nil {
+		return 2
+	}
+	for _, f := range doc.Findings {
+		wit, _ := f["witness"].(string)
+		mut, _ := f["reintroduced_by"].(string)
+		prop, _ := f["property"].(string)
+		class, _ := f["class"].(string)
+		p, ok := props[prop]
+		if wit == "" || mut == "" || !ok {
+			continue
+		}
+		cb, err := os.ReadFile(filepath.Join(verifDir, wit))
+		if err != nil {
+			fmt.Printf("witness %-60s missing\n", wit)
+			rc = 2
+			continue
+		}
+		var c caseDoc
+		json.Unmarshal(cb, &c)
+		judge := func(repo string) string {
+			worker, err := prepare(p, repo)
+			if err != nil {
+				return "build-failed: " + err.Error()
+			}
+			res, v, err := replayOnce(worker, filepath.Join(scratch, p.ID, "out"), clone(c), true, "wit")
+			if err != nil {
+				return "error: " + err.Error()
+			}
+			if v != nil && v.Class == "replay_diverged" {
+				res, v, err = replayOnce(worker, filepath.Join(scratch, p.ID, "out"), clone(c), false, "wit2")
+				if err != nil {
+					return "error: " + err.Error()
+				}
+			}
+			_ = res
+			if v == nil {
+				return "no violation"
+			}
+			return v.Class
+		}
+		onFixed := judge(repoDir())
+		rdir := filepath.Join(scratch, "repo")
+		os.RemoveAll(rdir)
+		run("", nil, "rsync", "-a", "--exclude", ".git", repoDir()+"/", rdir+"/")
+		if out, err := run(rdir, nil, "patch", "-p1", "--no-backup-if-mismatch", "-i", filepath.Join(verifDir, mut)); err != nil {
+			fmt.Printf("witness %-60s mutant does not apply: %s\n", wit, strings.TrimSpace(out))
+			rc = 2
+			continue
+		}
+		onBroken := judge(rdir)
+		ok2 := onFixed == "no violation" && onBroken == class
+		if !ok2 {
+			rc = 2
+		}
+		fmt.Printf("witness %-66s repaired tree: %-14s defect re-introduced: %-32s %v\n", filepath.Base(wit), onFixed, onBroken, map[bool]string{true: "ok", false: "UNEXPECTED"}[ok2])
+	}
+	return rc
 }
